@@ -157,8 +157,20 @@ impl UintVecMin0 {
     #[inline]
     pub fn get(&self, idx: usize) -> usize {
         assert!(idx < self.size, "Index {} out of bounds {}", idx, self.size);
-        assert!(self.bits <= 58, "Use BigUintVecMin0 for >58 bits");
+        if self.bits > 58 {
+            return self.wide_get_internal(idx);
+        }
         self.fast_get_internal(idx)
+    }
+
+    /// Get for 59..64 bits per value: the field may span nine bytes
+    fn wide_get_internal(&self, idx: usize) -> usize {
+        let bit_idx = self.bits * idx;
+        let (byte_idx, shift) = (bit_idx / 8, bit_idx % 8);
+        let n = (shift + self.bits + 7) / 8;
+        let mut buf = [0u8; 16];
+        buf[..n].copy_from_slice(&self.data[byte_idx..byte_idx + n]);
+        ((u128::from_le_bytes(buf) >> shift) as usize) & self.mask
     }
 
     /// Get two consecutive values (optimized bulk access)
@@ -168,8 +180,11 @@ impl UintVecMin0 {
     /// More efficient than calling `get()` twice due to reduced bounds checking
     #[inline]
     pub fn get2(&self, idx: usize) -> [usize; 2] {
-        assert!(idx + 1 < self.size, "Index {} out of bounds for get2", idx);
-        assert!(self.bits <= 58, "Use BigUintVecMin0 for >58 bits");
+        // idx < size first: idx + 1 wraps for usize::MAX and the read went far outside the buffer
+        assert!(idx < self.size && idx + 1 < self.size, "Index {} out of bounds for get2", idx);
+        if self.bits > 58 {
+            return [self.wide_get_internal(idx), self.wide_get_internal(idx + 1)];
+        }
         [self.fast_get_internal(idx), self.fast_get_internal(idx + 1)]
     }
 
@@ -278,7 +293,8 @@ impl UintVecMin0 {
 
             while remaining_bits > 0 {
                 let bits_in_byte = (8 - curr_bit_offset).min(remaining_bits);
-                let byte_mask = ((1u8 << bits_in_byte) - 1) << curr_bit_offset;
+                // in u16: 1u8 << 8 wraps and the old content of a full byte was not cleared
+                let byte_mask = (((1u16 << bits_in_byte) - 1) as u8) << curr_bit_offset;
                 let byte_val = ((remaining_val & ((1 << bits_in_byte) - 1)) as u8) << curr_bit_offset;
 
                 self.data[curr_byte] = (self.data[curr_byte] & !byte_mask) | byte_val;
